@@ -435,3 +435,10 @@ func dischargeGround(obs []obligation, batch int, timeoutS int) *groundStats {
 	}
 	return st
 }
+
+func runCmd(bin string, args []string, stdin string) string {
+	cmd := exec.Command(bin, args...)
+	cmd.Stdin = strings.NewReader(stdin)
+	out, _ := cmd.CombinedOutput()
+	return string(out)
+}
